@@ -15,18 +15,25 @@ CONSTANT OracleBound      \* largest selection space the brute-force oracle is a
 Rec == ndJsonDeserialize(IOEnv.TRACE)
 
 VARIABLES l,      \* next line
-          ctx,    \* [id, k, u, p, cfg]
+          ctx,    \* [id, k, begin]: case id, solve index, line of the begin event
           bb,     \* provider-side state
-          wb      \* solver-internal state rebuilt from hook events
-vars == <<l, ctx, bb, wb>>
+          wb,     \* solver-internal state rebuilt from hook events
+          grp     \* last result of the current comparison group (C02 C06 C10)
+vars == <<l, ctx, bb, wb, grp>>
 
-u == ctx.u
-p == ctx.p
+\* the universe, problem and configuration stay in the (constant) trace; only
+\* the line number of the begin event is part of the state
+u == Rec[ctx.begin].u
+p == Rec[ctx.begin].p
+cfg == Rec[ctx.begin].cfg
 
 \* one output line per report: PrintT of a string is never wrapped by TLC
 Line(kind, id, k, rest) == PrintT(kind \o "|" \o ToString(id) \o "|" \o ToString(k) \o "|" \o rest)
 Fail(rule, info) == Line("RULEFAIL", ctx.id, ctx.k, ToString(l) \o "|" \o rule \o "|" \o ToString(info))
-Check(ok, rule, info) == IF ok THEN TRUE ELSE Fail(rule, info)
+\* rules of a property are evaluated only when the driver enabled that
+\* property (environment R_Cxx = "1"); arguments are evaluated lazily
+RuleOn(prop) == prop = "T" \/ IOEnv["R_" \o prop] = "1"
+Chk(prop, ok, rule, info) == IF ~RuleOn(prop) THEN TRUE ELSE IF ok THEN TRUE ELSE Fail(rule, info)
 RECURSIVE JoinTags(_)
 JoinTags(t) == IF t = <<>> THEN "" ELSE Head(t) \o (IF Len(t) > 1 THEN "," ELSE "") \o JoinTags(Tail(t))
 Cover(tags) == Line("COVER", ctx.id, ctx.k, JoinTags(tags))
@@ -39,34 +46,39 @@ HintedOf(U, n) == IF ~U.pkg[n].exists THEN {}
                   ELSE IF U.pkg[n].hint.mode = "some" THEN Range(U.pkg[n].hint.list)
                   ELSE {}
 
-BB0 == [dcalls |-> {}, ccalls |-> {}, dret |-> {}, cret |-> {}, kreqs |-> {}, knames |-> {},
+GRP0 == [id |-> 0, kind |-> "", sol |-> <<>>, msg |-> "", calls |-> <<>>, profile |-> ""]
+BB0 == [callseq |-> <<>>, dcalls |-> {}, ccalls |-> {}, dret |-> {}, cret |-> {}, kreqs |-> {}, knames |-> {},
         cancelSeen |-> FALSE, cancelVal |-> 0, prevSolves |-> 0, callsThisSolve |-> 0]
-WB0 == [cls |-> <<>>, trail |-> <<>>, A |-> {}, vsolv |-> <<>>, vhelp |-> <<>>, on |-> FALSE]
+WB0 == [cls |-> <<>>, nlearnt |-> 0, trail |-> <<>>, A |-> {}, vsolv |-> <<>>, vhelp |-> <<>>, on |-> FALSE]
 
 Init == /\ l = 1
-        /\ ctx = [id |-> -1, k |-> 0, u |-> [pkg |-> <<>>, solv |-> <<>>, vs |-> <<>>],
-                  p |-> [reqs |-> <<>>, cons |-> <<>>, soft |-> <<>>], cfg |-> [mode |-> ""]]
+        /\ ctx = [id |-> -1, k |-> 0, begin |-> 0]
         /\ bb = BB0
         /\ wb = WB0
+        /\ grp = GRP0
 
 (***************************************************************************)
 (* begin: a new solve; a fresh solver forgets everything, a reused one     *)
 (* keeps what it fetched (C13).                                            *)
 (***************************************************************************)
 Begin ==
-  /\ E("begin")
+  /\ E("begin") /\ UNCHANGED grp
   /\ LET r == Rec[l]
-         base == IF r.fresh THEN BB0 ELSE [bb EXCEPT !.prevSolves = bb.prevSolves + 1]
-     IN /\ ctx' = [id |-> r.id, k |-> r.k, u |-> r.u, p |-> r.p, cfg |-> r.cfg]
+         \* a reused solver keeps what was RETURNED to it; a request that was
+         \* still in flight when the previous solve ended was never answered
+         base == IF r.fresh THEN BB0
+                 ELSE [bb EXCEPT !.prevSolves = bb.prevSolves + 1, !.dcalls = bb.dret, !.ccalls = bb.cret]
+     IN /\ ctx' = [id |-> r.id, k |-> r.k, begin |-> l]
         /\ Line("BEGIN", r.id, r.k, r.profile)
         /\ (IF WF(r.u, r.p) THEN TRUE ELSE Line("RULEFAIL", r.id, r.k, ToString(l) \o "|T_IllFormedInput|0"))
         /\ bb' = [base EXCEPT !.kreqs = base.kreqs \cup Range(r.p.reqs),
                               !.knames = base.knames \cup Mentioned(r.u, r.p, 0),
-                              !.cancelSeen = FALSE, !.cancelVal = 0, !.callsThisSolve = 0]
+                              !.cancelSeen = FALSE, !.cancelVal = 0, !.callsThisSolve = 0,
+                              !.callseq = <<>>]
         /\ wb' = [WB0 EXCEPT !.on = r.cfg.whitebox]
 
 Poll ==
-  /\ E("poll") /\ UNCHANGED <<ctx, wb>>
+  /\ E("poll") /\ UNCHANGED <<ctx, wb, grp>>
   /\ bb' = IF Rec[l].fired /\ ~bb.cancelSeen
            THEN [bb EXCEPT !.cancelSeen = TRUE, !.cancelVal = Rec[l].k] ELSE bb
 
@@ -75,24 +87,28 @@ Poll ==
 (* cancellation was observed (C09 C10 C12 C13)                             *)
 (***************************************************************************)
 Call ==
-  /\ E("call") /\ UNCHANGED <<ctx, wb>>
-  /\ LET a == Rec[l].arg IN
+  /\ E("call") /\ UNCHANGED <<ctx, wb, grp>>
+  /\ LET a == Rec[l].arg
+         nb == IF cfg.same = "exact" \/ cfg.group = ctx.id
+               THEN [bb EXCEPT !.callseq = Append(bb.callseq, <<Rec[l].kind, a, Rec[l].inv>>)]
+               ELSE bb
+     IN
      IF Rec[l].kind = "deps" THEN
-        /\ Check(a \notin bb.dcalls, "C09_DupDeps", a)
-        /\ Check(~NoHints(u) \/ a \in Range(p.soft)
+        /\ Chk("C09", a \notin bb.dcalls, "C09_DupDeps", a)
+        /\ Chk("C09", ~NoHints(u) \/ a \in Range(p.soft)
                    \/ \E r \in bb.kreqs : \E i \in DOMAIN r : a \in MatchSet(u, r[i]),
                  "C09_CausalDeps", a)
-        /\ Check(~bb.cancelSeen, "C12_CallAfterCancel", <<"deps", a>>)
-        /\ bb' = [bb EXCEPT !.dcalls = bb.dcalls \cup {a}, !.callsThisSolve = bb.callsThisSolve + 1]
+        /\ Chk("C12", ~bb.cancelSeen, "C12_CallAfterCancel", <<"deps", a>>)
+        /\ bb' = [nb EXCEPT !.dcalls = bb.dcalls \cup {a}, !.callsThisSolve = bb.callsThisSolve + 1]
      ELSE IF Rec[l].kind = "cands" THEN
-        /\ Check(a \notin bb.ccalls, "C09_DupCands", a)
-        /\ Check(~NoHints(u) \/ a \in bb.knames, "C09_CausalCands", a)
-        /\ Check(~bb.cancelSeen, "C12_CallAfterCancel", <<"cands", a>>)
-        /\ bb' = [bb EXCEPT !.ccalls = bb.ccalls \cup {a}, !.callsThisSolve = bb.callsThisSolve + 1]
-     ELSE bb' = bb
+        /\ Chk("C09", a \notin bb.ccalls, "C09_DupCands", a)
+        /\ Chk("C09", ~NoHints(u) \/ a \in bb.knames, "C09_CausalCands", a)
+        /\ Chk("C12", ~bb.cancelSeen, "C12_CallAfterCancel", <<"cands", a>>)
+        /\ bb' = [nb EXCEPT !.ccalls = bb.ccalls \cup {a}, !.callsThisSolve = bb.callsThisSolve + 1]
+     ELSE bb' = nb
 
 Ret ==
-  /\ E("ret") /\ UNCHANGED <<ctx, wb>>
+  /\ E("ret") /\ UNCHANGED <<ctx, wb, grp>>
   /\ LET a == Rec[l].arg IN
      IF Rec[l].kind = "deps" THEN
         bb' = [bb EXCEPT !.dret = bb.dret \cup {a},
@@ -103,55 +119,37 @@ Ret ==
 
 \* C20: the availability query from inside sort_candidates
 CacheQuery ==
-  /\ E("cachequery") /\ UNCHANGED <<ctx, bb, wb>>
+  /\ E("cachequery") /\ UNCHANGED <<ctx, bb, wb, grp>>
   /\ LET hinted == UNION {HintedOf(u, n) : n \in bb.cret} IN
      \A i \in DOMAIN Rec[l].answers :
         LET s == Rec[l].answers[i][1] ans == Rec[l].answers[i][2] IN
-        Check(ans = (s \in bb.dret \/ s \in hinted), "C20_Availability", <<s, ans>>)
+        Chk("C20", ans = (s \in bb.dret \/ s \in hinted), "C20_Availability", <<s, ans>>)
 
 (***************************************************************************)
 (* async runs: quiescent points (C10 no deadlock, C11 maximal issuance)    *)
 (***************************************************************************)
 Quiescent ==
-  /\ E("quiescent") /\ UNCHANGED <<ctx, bb, wb>>
-  /\ Check(Rec[l].pending # <<>>, "C10_Deadlock", 0)
-  /\ Check(bb.cancelSeen \/ bb.knames \subseteq bb.ccalls, "C11_NotIssued", bb.knames \ bb.ccalls)
+  /\ E("quiescent") /\ UNCHANGED <<ctx, bb, wb, grp>>
+  /\ Chk("C10", Rec[l].pending # <<>>, "C10_Deadlock", 0)
+  /\ Chk("C11", bb.cancelSeen \/ bb.knames \subseteq bb.ccalls, "C11_NotIssued", bb.knames \ bb.ccalls)
   /\ (IF Len(Rec[l].pending) >= 2 THEN Cover(<<"quiescent2">>) ELSE TRUE)
 
 Skip == /\ l <= Len(Rec)
         /\ Rec[l].ev \in {"blockon", "blockdone", "complete", "skipped", "verdict", "runsat", "restart", "end"}
-        /\ l' = l + 1 /\ UNCHANGED <<ctx, bb, wb>>
+        /\ l' = l + 1 /\ UNCHANGED <<ctx, bb, wb, grp>>
 
 (***************************************************************************)
 (* white-box rules on the hook stream (C01 C02 C03 C05)                    *)
 (***************************************************************************)
-Neg(x) == <<x[1], 1 - x[2]>>
 LitSet(q) == {<<q[i][1], q[i][2]>> : i \in DOMAIN q}
 Lookup(f, k) == IF \E i \in DOMAIN f : f[i][1] = k
                 THEN f[CHOOSE i \in DOMAIN f : f[i][1] = k][2] ELSE -1
 SolvOfVar(v) == IF v = 0 THEN 0 ELSE Lookup(wb.vsolv, v)   \* 0 = root, -1 = not a solvable
+\* wb.cls[i] is the line number of the event that introduced clause i
 HasClause(i) == i \in DOMAIN wb.cls
-AllLits == {wb.cls[i].lits : i \in DOMAIN wb.cls}
-
-\* unit propagation over a set of literal sets; {<<-1,-1>>} = conflict
-RECURSIVE UP(_, _)
-UP(C, A) ==
-  IF \E c \in C : \A x \in c : Neg(x) \in A THEN {<<-1, -1>>}
-  ELSE LET new == {x \in UNION C : x \notin A /\ Neg(x) \notin A
-                       /\ \E c \in C : x \in c /\ \A y \in c \ {x} : Neg(y) \in A}
-       IN IF new = {} THEN A
-          ELSE IF \E x \in new : Neg(x) \in new THEN {<<-1, -1>>}
-          ELSE UP(C, A \cup new)
-RUP(C, lits) == UP(C, {Neg(x) : x \in lits}) = {<<-1, -1>>}
-
-RECURSIVE Unsat(_, _)
-Unsat(C, A) ==
-  LET r == UP(C, A) IN
-  IF r = {<<-1, -1>>} THEN TRUE
-  ELSE LET free == {x[1] : x \in UNION C} \ {x[1] : x \in r} IN
-       IF free = {} THEN FALSE
-       ELSE LET v == CHOOSE v \in free : TRUE IN
-            Unsat(C, r \cup {<<v, 1>>}) /\ Unsat(C, r \cup {<<v, 0>>})
+ClauseLits(i) == LitSet(Rec[wb.cls[i]].lits)
+ClauseKind(i) == IF Rec[wb.cls[i]].ev = "learnt" THEN "learnt" ELSE Rec[wb.cls[i]].kind
+AllLits == {ClauseLits(i) : i \in DOMAIN wb.cls}
 
 \* each problem clause states a true fact of the universe
 TrueFact(r) ==
@@ -192,56 +190,54 @@ TrueFact(r) ==
     [] OTHER -> FALSE
 
 Var ==
-  /\ E("var") /\ UNCHANGED <<ctx, bb>>
+  /\ E("var") /\ UNCHANGED <<ctx, bb, grp>>
   /\ wb' = IF Rec[l].solv # 0
            THEN [wb EXCEPT !.vsolv = Append(wb.vsolv, <<Rec[l].v, Rec[l].solv>>)]
            ELSE [wb EXCEPT !.vhelp = Append(wb.vhelp, <<Rec[l].v, Rec[l].name>>)]
 
 ClauseEv ==
-  /\ E("clause") /\ UNCHANGED <<ctx, bb>>
-  /\ Check(Rec[l].id = Len(wb.cls) + 1, "T_ClauseIdNotDense", Rec[l].id)
-  /\ Check(TrueFact(Rec[l]), "C03_TrueFact", Rec[l])
-  /\ wb' = [wb EXCEPT !.cls = Append(wb.cls,
-                [kind |-> Rec[l].kind, lits |-> LitSet(Rec[l].lits), why |-> <<>>])]
+  /\ E("clause") /\ UNCHANGED <<ctx, bb, grp>>
+  /\ Chk("T", Rec[l].id = Len(wb.cls) + 1, "T_ClauseIdNotDense", Rec[l].id)
+  /\ Chk("C03", TrueFact(Rec[l]), "C03_TrueFact", Rec[l])
+  /\ wb' = [wb EXCEPT !.cls = Append(wb.cls, l)]
 
 Assign ==
-  /\ E("assign") /\ UNCHANGED <<ctx, bb>>
+  /\ E("assign") /\ UNCHANGED <<ctx, bb, grp>>
   /\ LET x == <<Rec[l].v, IF Rec[l].val THEN 1 ELSE 0>> IN
-     /\ Check(x \notin wb.A /\ Neg(x) \notin wb.A, "C02_Reassigned", x)
+     /\ Chk("C02", x \notin wb.A /\ Neg(x) \notin wb.A, "C02_Reassigned", x)
      /\ (IF Rec[l].tag # "implied" THEN TRUE
-         ELSE /\ Check(HasClause(Rec[l].why), "C02_ReasonLogged", Rec[l].why)
+         ELSE /\ Chk("C02", HasClause(Rec[l].why), "C02_ReasonLogged", Rec[l].why)
               /\ (IF HasClause(Rec[l].why)
-                  THEN LET c == wb.cls[Rec[l].why] IN
-                       Check(x \in c.lits /\ \A y \in c.lits \ {x} : Neg(y) \in wb.A,
+                  THEN LET c == [lits |-> ClauseLits(Rec[l].why)] IN
+                       Chk("C02", x \in c.lits /\ \A y \in c.lits \ {x} : Neg(y) \in wb.A,
                              "C02_ReasonIsUnit", <<Rec[l].v, Rec[l].val, Rec[l].why>>)
                   ELSE TRUE))
      /\ wb' = [wb EXCEPT !.trail = Append(wb.trail, x), !.A = wb.A \cup {x}]
 
 Undo ==
-  /\ E("undo") /\ UNCHANGED <<ctx, bb>>
-  /\ Check(Rec[l].len <= Len(wb.trail), "C05_UndoNotPrefix", Rec[l].len)
+  /\ E("undo") /\ UNCHANGED <<ctx, bb, grp>>
+  /\ Chk("C05", Rec[l].len <= Len(wb.trail), "C05_UndoNotPrefix", Rec[l].len)
   /\ LET n == IF Rec[l].len <= Len(wb.trail) THEN Rec[l].len ELSE Len(wb.trail)
          t == SubSeq(wb.trail, 1, n)
      IN wb' = [wb EXCEPT !.trail = t, !.A = Range(t)]
 
 Learnt ==
-  /\ E("learnt") /\ UNCHANGED <<ctx, bb>>
+  /\ E("learnt") /\ UNCHANGED <<ctx, bb, grp>>
   /\ LET ls == LitSet(Rec[l].lits) IN
-     /\ Check(Rec[l].id = Len(wb.cls) + 1, "T_ClauseIdNotDense", Rec[l].id)
-     /\ Check(RUP(AllLits, ls), "C02_LearntRUP", Rec[l].id)
-     /\ Check(\A i \in Range(Rec[l].why) : HasClause(i), "C03_WhyLogged", Rec[l].why)
-     /\ Check(RUP({wb.cls[i].lits : i \in {j \in Range(Rec[l].why) : HasClause(j)}}, ls),
+     /\ Chk("T", Rec[l].id = Len(wb.cls) + 1, "T_ClauseIdNotDense", Rec[l].id)
+     /\ Chk("C02", RUP(AllLits, ls), "C02_LearntRUP", Rec[l].id)
+     /\ Chk("C03", \A i \in Range(Rec[l].why) : HasClause(i), "C03_WhyLogged", Rec[l].why)
+     /\ Chk("C03", RUP({ClauseLits(i) : i \in {j \in Range(Rec[l].why) : HasClause(j)}}, ls),
               "C03_LearntFromWhy", Rec[l].id)
-     /\ wb' = [wb EXCEPT !.cls = Append(wb.cls,
-                   [kind |-> "learnt", lits |-> ls, why |-> Rec[l].why])]
+     /\ wb' = [wb EXCEPT !.cls = Append(wb.cls, l), !.nlearnt = wb.nlearnt + 1]
 
 \* the clause ids the solver reports for an Unsolvable verdict
 UnsatIds ==
-  /\ E("unsatids") /\ UNCHANGED <<ctx, bb, wb>>
-  /\ Check(UP(AllLits, {<<0, 1>>}) = {<<-1, -1>>}, "C02_RUPRefutation", 0)
-  /\ Check(\A i \in Range(Rec[l].ids) : HasClause(i) /\ wb.cls[i].kind # "learnt",
+  /\ E("unsatids") /\ UNCHANGED <<ctx, bb, wb, grp>>
+  /\ Chk("C02", UP(AllLits, {<<0, 1>>}) = {<<-1, -1>>}, "C02_RUPRefutation", 0)
+  /\ Chk("C03", \A i \in Range(Rec[l].ids) : HasClause(i) /\ ClauseKind(i) # "learnt",
            "C03_ReportedIds", Rec[l].ids)
-  /\ Check(Unsat({wb.cls[i].lits : i \in {j \in Range(Rec[l].ids) : HasClause(j)}}, {<<0, 1>>}),
+  /\ Chk("C03", Unsat({ClauseLits(i) : i \in {j \in Range(Rec[l].ids) : HasClause(j)}}, {<<0, 1>>}),
            "C03_ReportedUnsat", Rec[l].ids)
 
 (***************************************************************************)
@@ -254,36 +250,37 @@ SolvedVarsTrue == {SolvOfVar(x[1]) : x \in {y \in wb.A : y[2] = 1 /\ y[1] # 0}} 
 \* exempt: the property lets such a solvable ignore its own package's lock and
 \* exclusion list.
 ClauseHolds(i) ==
-  \/ \E x \in wb.cls[i].lits : x \in wb.A \/ (x[2] = 0 /\ <<x[1], 1>> \notin wb.A)
-  \/ /\ wb.cls[i].kind \in {"lock", "excluded"}
-     /\ \E x \in wb.cls[i].lits : x[1] # 0 /\ SolvOfVar(x[1]) \in Range(p.soft)
+  \/ \E x \in ClauseLits(i) : x \in wb.A \/ (x[2] = 0 /\ <<x[1], 1>> \notin wb.A)
+  \/ /\ ClauseKind(i) \in {"lock", "excluded"}
+     /\ \E x \in ClauseLits(i) : x[1] # 0 /\ SolvOfVar(x[1]) \in Range(p.soft)
 
 ResultSat(r) ==
   LET S    == Range(r.sol)
       X    == Range(p.soft)
       why  == WhyInvalid(u, p, S, X)
-      cf   == ConflictFree(u, Hard(p))
-      dbf  == DirectBestFeasible(u, p)
-      ob   == SoftObliged(u, p)
+      \* premises are only computed for the properties that are being checked
+      cf   == (RuleOn("C07") \/ RuleOn("C09")) /\ ConflictFree(u, Hard(p))
+      dbf  == RuleOn("C08") /\ DirectBestFeasible(u, p)
+      ob   == IF RuleOn("C14") THEN SoftObliged(u, p) ELSE {}
       clos == PreferredClosure(u, Hard(p))
   IN
-  /\ Check(~bb.cancelSeen, "C12_ResultAfterCancel", r.kind)
-  /\ Check(NoDup(r.sol), "C01_DupInSolution", r.sol)
-  /\ Check(why = "", "C01_" \o why, r.sol)
-  /\ Check(Supported(u, p, S), "C05_Unsupported", S \ SupportedSet(u, p, S))
-  /\ Check(~(cf /\ p.soft = <<>>) \/ S = clos, "C07_NotPreferred", <<r.sol, clos>>)
-  /\ Check(~dbf \/ DirectBest(u, p) \subseteq S, "C08_DirectDowngraded", <<r.sol, DirectBest(u, p)>>)
-  /\ Check(ob \subseteq S, "C14_SoftNotIncluded", <<r.sol, ob>>)
-  /\ Check(~(cf /\ p.soft = <<>> /\ NoHints(u) /\ bb.prevSolves = 0 /\ why = "")
+  /\ Chk("C12", ~bb.cancelSeen, "C12_ResultAfterCancel", r.kind)
+  /\ Chk("C01", NoDup(r.sol), "C01_DupInSolution", r.sol)
+  /\ Chk("C01", why = "", "C01_" \o why, r.sol)
+  /\ Chk("C05", Supported(u, p, S), "C05_Unsupported", S \ SupportedSet(u, p, S))
+  /\ Chk("C07", ~(cf /\ p.soft = <<>>) \/ S = clos, "C07_NotPreferred", <<r.sol, clos>>)
+  /\ Chk("C08", ~dbf \/ DirectBest(u, p) \subseteq S, "C08_DirectDowngraded", <<r.sol, DirectBest(u, p)>>)
+  /\ Chk("C14", ob \subseteq S, "C14_SoftNotIncluded", <<r.sol, ob>>)
+  /\ Chk("C09", ~(cf /\ p.soft = <<>> /\ NoHints(u) /\ bb.prevSolves = 0 /\ why = "")
              \/ (/\ bb.dcalls = clos
                  /\ bb.ccalls = Mentioned(u, p, 0) \cup UNION {Mentioned(u, p, x) : x \in clos}),
            "C09_NotExactWhenClean", <<bb.dcalls, bb.ccalls, clos>>)
   \* white box: the final assignment falsifies no clause, and the solution is
   \* exactly the solvable variables assigned true
   /\ (IF wb.on
-      THEN /\ Check(\A i \in DOMAIN wb.cls : ClauseHolds(i), "C01_DbNotSatisfied",
+      THEN /\ Chk("C01", \A i \in DOMAIN wb.cls : ClauseHolds(i), "C01_DbNotSatisfied",
                     {i \in DOMAIN wb.cls : ~ClauseHolds(i)})
-           /\ Check(SolvedVarsTrue = S, "C05_SolutionNotTrail", <<r.sol, SolvedVarsTrue>>)
+           /\ Chk("C05", SolvedVarsTrue = S, "C05_SolutionNotTrail", <<r.sol, SolvedVarsTrue>>)
       ELSE TRUE)
   /\ Cover(<<"sat">> \o (IF cf /\ p.soft = <<>> THEN <<"conflictfree">> ELSE <<>>)
                      \o (IF dbf THEN <<"directbest">> ELSE <<>>)
@@ -292,35 +289,58 @@ ResultSat(r) ==
                      \o (IF cf /\ p.soft = <<>> /\ NoHints(u) /\ bb.prevSolves = 0 THEN <<"exactcalls">> ELSE <<>>)
                      \o (IF bb.prevSolves > 0 THEN <<"reused">> ELSE <<>>)
                      \o (IF bb.prevSolves > 0 /\ bb.callsThisSolve = 0 THEN <<"reused_nocalls">> ELSE <<>>)
-                     \o (IF wb.on /\ \E i \in DOMAIN wb.cls : wb.cls[i].kind = "learnt" THEN <<"learnt">> ELSE <<>>))
+                     \o (IF wb.on /\ wb.nlearnt > 0 THEN <<"learnt">> ELSE <<>>))
 
 ResultUnsat(r) ==
   LET G == r.graph
-      small == SearchSpace(u) <= OracleBound
+      \* the DPLL oracle needs no size bound; OracleBound only caps the naive
+      \* cross-check used in MC_Universe
+      small == RuleOn("C02")
   IN
-  /\ Check(~bb.cancelSeen, "C12_ResultAfterCancel", r.kind)
-  /\ Check(~small \/ ~Satisfiable(u, p), "C02_UnsatButSatisfiable", 0)
-  /\ Check(NodesDistinct(G), "C03_NodesNotDistinct", 0)
-  /\ Check(\A e \in DOMAIN G.edges : EdgeTrue(u, p, G, e), "C03_EdgeFalse",
+  /\ Chk("C12", ~bb.cancelSeen, "C12_ResultAfterCancel", r.kind)
+  /\ Chk("C02", ~small \/ ~Satisfiable(u, p), "C02_UnsatButSatisfiable", 0)
+  /\ Chk("C03", NodesDistinct(G), "C03_NodesNotDistinct", 0)
+  /\ Chk("C03", \A e \in DOMAIN G.edges : EdgeTrue(u, p, G, e), "C03_EdgeFalse",
            {e \in DOMAIN G.edges : ~EdgeTrue(u, p, G, e)})
-  /\ Check(\A g \in ReqGroups(G) : GroupExact(u, G, g), "C03_GroupNotExact",
+  /\ Chk("C03", \A g \in ReqGroups(G) : GroupExact(u, G, g), "C03_GroupNotExact",
            {g \in ReqGroups(G) : ~GroupExact(u, G, g)})
-  /\ Check(Reachable(G), "C03_Unreachable", 0)
-  /\ Check(Refutes(u, G), "C03_NotSelfContained", 0)
-  /\ Check(~ctx.cfg.render \/ RenderOK(G, r.lines), "C04_RenderTooLong", <<r.lines, Len(G.edges)>>)
+  /\ Chk("C03", Reachable(G), "C03_Unreachable", 0)
+  /\ Chk("C03", Refutes(u, G), "C03_NotSelfContained", 0)
+  /\ Chk("C04", ~cfg.render \/ RenderOK(G, r.lines), "C04_RenderTooLong", <<r.lines, Len(G.edges)>>)
   /\ Cover(<<"unsat">> \o (IF small THEN <<"oracle">> ELSE <<>>)
                        \o (IF Cardinality(SolvNodes(G)) >= 4 THEN <<"graph4">> ELSE <<>>)
                        \o (IF p.soft # <<>> THEN <<"soft">> ELSE <<>>)
                        \o (IF bb.prevSolves > 0 THEN <<"reused">> ELSE <<>>)
-                       \o (IF wb.on /\ \E i \in DOMAIN wb.cls : wb.cls[i].kind = "learnt" THEN <<"learnt">> ELSE <<>>))
+                       \o (IF wb.on /\ wb.nlearnt > 0 THEN <<"learnt">> ELSE <<>>))
 
 ResultCancelled(r) ==
-  /\ Check(bb.cancelSeen, "C12_SpuriousCancel", r.v)
-  /\ Check(~bb.cancelSeen \/ r.v = bb.cancelVal, "C12_CancelValue", <<r.v, bb.cancelVal>>)
+  /\ Chk("C12", bb.cancelSeen, "C12_SpuriousCancel", r.v)
+  /\ Chk("C12", ~bb.cancelSeen \/ r.v = bb.cancelVal, "C12_CancelValue", <<r.v, bb.cancelVal>>)
   /\ Cover(<<"cancelled">> \o (IF bb.callsThisSolve > 0 THEN <<"cancel_after_calls">> ELSE <<>>))
+
+\* comparison with the previous run of the same group: the verdict must not
+\* depend on presentation (C02), schedule (C10); identical runs must be
+\* identical in every observable (C06)
+GroupRule(r) ==
+  LET g == cfg.group
+      linked == g # 0 /\ grp.id = g /\ ctx.k = 1
+      comparable == r.kind \in {"sat", "unsat"} /\ grp.kind \in {"sat", "unsat"}
+  IN /\ (IF linked /\ comparable /\ cfg.same \in {"verdict", "exact"}
+          THEN /\ Chk("C02", r.kind = grp.kind, "C02_VerdictDiffers", <<grp.profile, grp.kind, r.kind>>)
+               /\ Cover(<<"paired">>)
+          ELSE TRUE)
+     /\ (IF linked /\ comparable /\ cfg.same = "exact"
+          THEN /\ Chk("C06", r.sol = grp.sol, "C06_SolutionDiffers", <<grp.sol, r.sol>>)
+               /\ Chk("C06", r.msg = grp.msg, "C06_MessageDiffers", 0)
+               /\ Chk("C06", bb.callseq = grp.calls, "C06_CallsDiffer", 0)
+          ELSE TRUE)
+     /\ grp' = IF g = 0 \/ ctx.k # 1 THEN grp
+               ELSE [id |-> g, kind |-> r.kind, sol |-> r.sol, msg |-> r.msg, calls |-> bb.callseq,
+                     profile |-> Rec[ctx.begin].profile]
 
 Result ==
   /\ E("result") /\ UNCHANGED <<ctx, bb, wb>>
+  /\ GroupRule(Rec[l])
   /\ LET r == Rec[l] IN
      CASE r.kind = "sat" -> ResultSat(r)
        [] r.kind = "unsat" -> ResultUnsat(r)
